@@ -44,7 +44,7 @@ func (c *Crew) NewTimersSpec() *core.Spec {
 
 	onlyTimers := func(bs match.Bindings) match.Bindings {
 		acc := match.NewBindings()
-		acc["timers"] = bs["timers"]
+		acc["timers"] = c.timers.Pending()
 		return acc
 	}
 
@@ -113,8 +113,6 @@ func (c *Crew) NewTimersSpec() *core.Spec {
 							return failed(bs, err.Error())
 						}
 
-						c.timers.changed()
-
 						return core.NewExecution(onlyTimers(bs)), nil
 					},
 				},
@@ -143,8 +141,6 @@ func (c *Crew) NewTimersSpec() *core.Spec {
 						if err := c.timers.Cancel(ctx, id); err != nil {
 							return failed(bs, err.Error())
 						}
-
-						c.timers.changed()
 
 						return core.NewExecution(onlyTimers(bs)), nil
 					},
